@@ -902,7 +902,9 @@ Definition build_update_unlocked (s : mst) (h : handle) (assigns : list (nat * Z
   let m := minter (munion skip (am_mask pa)) (minverse (mask_of_list removes)) in
   do r <- get_arch s m (si_merge si_null (am_shared pa));
   let '(s1, ai) := r in
-  do s2 <- external_move s1 ai h pai pidx skip;
+  (* the edit maps back to the same archetype (it removed a dependent of a component that stays, or a component the
+     entity does not have): nothing moves *)
+  do s2 <- (if Nat.eqb ai pai then Ok s1 else external_move s1 ai h pai pidx skip);
   fold_res (fun st (a : nat * Z) => init_component_arch st h (fst a) (snd a)) assigns s2.
 
 (* markDirty / getComponent<false>: stamp the version chunk of the entity with the live world version *)
